@@ -191,14 +191,15 @@ def offset_rule(ctx, fm, R="C05.O"):
                  fm.fn["sp"])
         return
     w = rows[0]
-    data, pos = fm.term(w["args"][0]), fm.term(w["args"][1])
+    data_raw, pos = fm.term(w["args"][0]), fm.term(w["args"][1])
+    data = as_format_row(fm, data_raw)
     # ROW must be a format("{}\n", join(.., delim)) term
     if data[0] != "format":
         ctx.fail(R, "vectorise_mmap:row_term", "row data `%s` is not a formatted row" % show(data), line_of(w))
         return
     header_t, hkind, _hw = header_value(fm)
     def sym(t):
-        if is_len_of(t, data):
+        if is_len_of(t, data) or is_len_of(t, data_raw):
             return "len(ROW)"
         if header_t is not None and is_len_of(t, header_t):
             return "len(HEADER)"
